@@ -1284,6 +1284,28 @@ theorem parse_scanned (u s : List Char) (h : (floatSpec u).text = some s) : MpfS
     rw [← hbody]
     exact parseBody_ok true _ _ pt _ hipc hfpc hnec hxc
 
+theorem scanF_not_good' (i : IStream) (h : i.good = false) : scanF i = ({ i with fail := true }, none) := by
+  have hg : ({ i with fail := true } : IStream).good = false := by simp [IStream.good]
+  have hsp : isspace '\x00' = false := by decide
+  have hstart : start i = ({ i with fail := true }, '\x00') := by
+    unfold start
+    rw [get_not_good i _ h]
+    simp only
+    split
+    · cases hn : ({ i with fail := true } : IStream).rest.length + 1 with
+      | zero => simp [skipWs]
+      | succ n => simp [skipWs, hsp]
+    · rfl
+  have hrs : readSign { i with fail := true } '\x00' = ([], { i with fail := true }, '\x00') := by
+    simp [readSign, show ¬ (('\x00' : Char) = '-' ∨ ('\x00' : Char) = '+') by decide]
+  have hl : ∀ n s, digitsLoop (digitTest 10) n s { i with fail := true } '\x00' false = (s, { i with fail := true }, '\x00', false) := by
+    intro n s; cases n <;> simp [digitsLoop, show digitTest 10 '\x00' = false by decide]
+  rw [scanF_eq, hstart]
+  simp only [hrs]
+  unfold mantRun expRun setDigits
+  simp only [hl, show ¬ (('\x00' : Char) = '.') by decide, if_false, Bool.false_eq_true, false_and]
+  simp [finish, hg, IStream.setFail]
+
 end
 
 end Mpir.CxxIo
